@@ -3,6 +3,9 @@ package props
 import (
 	"fmt"
 
+	"verifsim/core"
+	"verifsim/gen"
+
 	"verifsim/harness"
 	"verifsim/world"
 )
@@ -151,6 +154,115 @@ func c05Run(c *Ctx) {
 	}
 }
 
+// coldInput builds a well-formed input for an entry point by its format hint, with zone offsets
+// present (a cold zone cache is one of the lazily filled states).
+func coldInput(c *Ctx, l *core.Lane, hint string) []byte {
+	rec := gen.DrawRecord(l, 200)
+	if rec.ModifyDate == nil {
+		rec.ModifyDate = &gen.DateTime{Y: 2001, Mo: 2, D: 3, H: 4, Mi: 5, S: 6}
+	}
+	off := fmt.Sprintf("%c%02d:%02d", "+-"[l.Intn(2)], l.Intn(14), []int{0, 15, 30, 45}[l.Intn(4)])
+	rec.Offset = &off
+	tiff := gen.BuildTIFF(l, rec, gen.LayoutOpts{Foreign: 3}).Encode(l.Bool()).Bytes
+	switch hint {
+	case "jpeg":
+		return gen.DrawJPEG(l, gen.JPEGOpts{Exif: [][]byte{tiff}, XMP: [][]byte{xmpPacket(l)}, Max: 3}).Bytes
+	case "png":
+		return gen.Embed(l, gen.CPNG, [][]byte{tiff}, true).Bytes
+	case "cr3", "bmff":
+		var o gen.CR3Opts
+		o.CMT[0] = tiff
+		o.XMP = xmpPacket(l)
+		o.Preview = append([]byte{0xff, 0xd8, 0xff, 0xdb}, l.Sub().Bytes(600)...)
+		return gen.DrawCR3(l, o).Bytes
+	case "heif":
+		return gen.DrawHEIF(l, tiff, true).Bytes
+	case "xmp":
+		return gen.DrawXRecord(l, false).Serialise(l, gen.DrawXStyle(l))
+	}
+	return gen.TIFFFile(l, tiff, true)
+}
+
+// c05Cold: four tasks make the process's first calls of one entry point at the same time (the
+// campaign runs every case in a fresh worker process). Lazily initialised package state, cold
+// caches and empty pools are touched concurrently here and nowhere else.
+func c05Cold(c *Ctx) {
+	nk := len(harness.Entries) + len(harness.HashNames)
+	kind := int(c.Run) % nk
+	const nt = 4
+	tasks := make([]*c05Task, nt)
+	for i := range tasks {
+		l := c.L(fmt.Sprintf("task:%d:0", i))
+		t := &c05Task{dev: &world.Device{}}
+		var o *opCase
+		if kind < len(harness.Entries) {
+			e := harness.Entries[kind]
+			o = &opCase{data: coldInput(c, l, e.Hint), name: "cold:" + e.Hint, e: e, trunc: -1}
+		} else {
+			fn := kind - len(harness.Entries)
+			n := 64
+			if fn == harness.HPHash256 || fn == harness.HPHash256Alt {
+				n = 256
+			}
+			px, _ := gen.DrawPixels(l, n)
+			img, _ := px.Materialise(l.Intn(gen.NumKinds), 0, 0, false, 0, core.NewSplitMix(l.U64()|1))
+			o = &opCase{name: "cold:image", e: harness.HashEntry(fn, img), trunc: -1}
+		}
+		t.ops, t.dls, t.res = []*opCase{o}, []Delivery{{Piece: 1, Const: 64 + 61*i}}, make([]*harness.Result, 1)
+		tasks[i] = t
+		c.Descf("task %d: %s", i, o)
+	}
+	if c.PlanOnly {
+		c.PlanEntry = "concurrent"
+		return
+	}
+	// every yield switches: the four first calls are as interleaved as the device allows
+	sw, tg := make([]uint8, 2048), make([]uint16, 2048)
+	sl := c.L("sched")
+	for i := range sw {
+		sw[i], tg[i] = 1, uint16(sl.Intn(nt))
+	}
+	harness.LogDefault()
+	sched := world.NewSched(nt, sw, tg)
+	for i, t := range tasks {
+		id := i
+		t.dev.Yield = func(kind string) { sched.Yield(id) }
+	}
+	sched.Run(func(id int) {
+		t := tasks[id]
+		o := t.ops[0]
+		t.dev.Budget = c08Budget(len(o.data))
+		r := newReader(t.dev, o.data, o.fault(), t.dls[0])
+		t.res[0] = harness.Invoke(o.e, o.spec.New(t.dev), r)
+	})
+	for _, t := range tasks {
+		c.Dev.Seq += t.dev.Seq
+		c.D.Str(t.ops[0].e.Name)
+		c.Inc("entry:" + t.ops[0].e.Name)
+	}
+	c.D.U64(sched.Digest)
+	c.Sched = sched.Digest
+	c.Inc("probe:cold-start-first-calls-concurrent")
+	c.NonTrivial = sched.Switches > 0
+	if harness.RaceBuild {
+		return
+	}
+	// world A: each first call, made concurrently, returns what it returns alone afterwards
+	for i, t := range tasks {
+		o := t.ops[0]
+		harness.Pristine()
+		d := &world.Device{Budget: c08Budget(len(o.data))}
+		solo := harness.Invoke(o.e, o.spec.New(d), newReader(d, o.data, o.fault(), t.dls[0]))
+		if isBudget(solo) || isBudget(t.res[0]) {
+			continue
+		}
+		if site, detail := resultDiff(solo, t.res[0]); site != "" {
+			c.Fail("mismatch", o.e.Name, "cold:"+site, fmt.Sprintf("task %d: first call of the process made concurrently vs the same call alone: %s", i, detail))
+			return
+		}
+	}
+}
+
 func init() {
 	p := &Prop{
 		ID:    "C05",
@@ -174,9 +286,18 @@ func init() {
 		}
 		return 24000
 	}
+	nCold := func(tier string, seed uint64) uint64 {
+		k := uint64(len(harness.Entries) + len(harness.HashNames))
+		if tier == "thorough" {
+			return 16 * k
+		}
+		return 4 * k
+	}
 	p.Campaigns = []*Campaign{
-		{Name: "schedules", Phase: 0, Weight: 1, N: n, Run: c05Run},
-		{Name: "schedules-race", Phase: 1, Weight: 1, N: n, Run: c05Run},
+		{Name: "cold", Phase: 0, Weight: 1, N: nCold, Run: c05Cold, Fresh: true},
+		{Name: "schedules", Phase: 0, Weight: 8, N: n, Run: c05Run},
+		{Name: "cold-race", Phase: 1, Weight: 1, N: nCold, Run: c05Cold, Fresh: true},
+		{Name: "schedules-race", Phase: 1, Weight: 8, N: n, Run: c05Run},
 	}
 	p.RacePhases = []int{1}
 	p.PhaseBudget = []int{50, 50}
